@@ -495,7 +495,11 @@ func copyOwner(f []string) (out string) {
 		}
 	}
 	node, _ := strconv.ParseUint(f[2], 10, 64)
-	d := &meta.Data{Databases: []meta.DatabaseInfo{{Name: "db0", RetentionPolicies: []meta.RetentionPolicyInfo{{Name: "rp0", ReplicaN: 1, ShardGroups: []meta.ShardGroupInfo{
+	var nodes []meta.NodeInfo
+	for id := uint64(1); id <= 9; id++ {
+		nodes = append(nodes, meta.NodeInfo{ID: id})
+	}
+	d := &meta.Data{DataNodes: nodes, Databases: []meta.DatabaseInfo{{Name: "db0", RetentionPolicies: []meta.RetentionPolicyInfo{{Name: "rp0", ReplicaN: 1, ShardGroups: []meta.ShardGroupInfo{
 		{ID: 1, Shards: []meta.ShardInfo{{ID: 7, Owners: []meta.ShardOwner{{NodeID: 1}}}}},
 		{ID: 2, Shards: []meta.ShardInfo{{ID: 8, Owners: []meta.ShardOwner{{NodeID: 2}}}, {ID: 1, Owners: owners}, {ID: 9, Owners: []meta.ShardOwner{{NodeID: 3}}}}},
 	}}}}}}
